@@ -1,7 +1,7 @@
 SPECIFICATION Spec
 CONSTANTS
   Mode = "pipe"
-  BsIds = {1, 2, 3}
+  BsIds = {1, 2}
   MaxMeas = 3
   Deltas <- DeltasQuick
   Diffs = {1}
